@@ -150,6 +150,24 @@ def waiting_cancel(F, R, rule='B.C05.cancel'):
             % sorted(tos), detail={'to': sorted(tos)})
 
 
+def resume_is_immediate(F, R, rule='B.C03.cmd'):
+    """`resume(tween)` is `resume_at(StartTime::Immediate, tween)` on every handle that has both: the tween's own start time
+    is honoured once, by the fade parameter - handing it to `resume_at` as well makes the audio side wait for it twice (once
+    in WaitingToResume, once inside the fade)."""
+    n = 0
+    for b in F.bodies:
+        if b.krate != 'kira' or not b.path.endswith('::resume') or 'andle' not in b.path:
+            continue
+        cs = [(bb, t) for bb, t in b.calls() if (callee_path(t) or '').endswith('::resume_at')]
+        if not cs:
+            continue
+        n += 1
+        d = describe(b, cs[0][1]['args'][1], depth=4, at=cs[0][0])
+        R.check(len(cs) == 1 and d == 'start_time::StartTime::Immediate', rule, 'resume-immediate:' + b.path.split('::')[-2].split('<')[0],
+                '%s resumes at %s, not at StartTime::Immediate' % (b.path, d[:60]), detail={'start': d[:60]}, where=b.file, nontrivial=False)
+    R.floor(rule + '.resume-immediate', n, 4)
+
+
 def ret_bool(ret, decisions):
     """The boolean a path returns: a literal, or a value the path itself has branched on (`if finished {..} finished`)."""
     r = str(ret)
@@ -183,6 +201,7 @@ def run(ctx, R, tier):
     write_unconditional(F, R, rule='B.C03.cmd', floor=8, fn_filter=lambda p: ('sound::static_sound::handle' in p or 'sound::streaming::handle' in p)
                         and p.split('::')[-1] in ('pause', 'resume', 'resume_at', 'stop'))
     lifecycle_readers(F, R)
+    resume_is_immediate(F, R)
     finite_length(F, R)
     # a clock start time becomes Immediate exactly when the clock says Now (the C05 rule)
     from .c05 import start_time_rule
